@@ -1,4 +1,4 @@
-"""C01 -- rename preserves the program (structural clauses R01.1-R01.17)."""
+"""C01 -- rename preserves the program (structural clauses R01.1-R01.21)."""
 from __future__ import annotations
 
 import ast
